@@ -267,9 +267,15 @@ class Interp:
 
     @staticmethod
     def is_generator(func):
-        for n in ast.walk(func.node):
+        # (a yield belongs to the innermost enclosing def: nested functions are not searched)
+        todo = list(ast.iter_child_nodes(func.node))
+        while todo:
+            n = todo.pop()
             if isinstance(n, (ast.Yield, ast.YieldFrom)):
                 return True
+            if isinstance(n, (ast.FunctionDef, ast.AsyncFunctionDef, ast.Lambda, ast.ClassDef)):
+                continue
+            todo.extend(ast.iter_child_nodes(n))
         return False
 
     def solve_reachers(self):
@@ -474,7 +480,9 @@ class Interp:
             except Exception:
                 pass
         is_partial = len(found) == 1 and isinstance(found[0], ast.Call) and ast.unparse(found[0].func) in ('partial', 'functools.partial')
-        if len(found) == 1 and (lit_call or is_partial or isinstance(found[0], (ast.Tuple, ast.List, ast.Dict, ast.Constant, ast.Attribute, ast.Set))):
+        is_getter = len(found) == 1 and isinstance(found[0], ast.Call) and ast.unparse(found[0].func) in ('attrgetter', 'operator.attrgetter', 'itemgetter', 'operator.itemgetter') \
+            and found[0].args and not found[0].keywords and all(isinstance(x, ast.Constant) for x in found[0].args)
+        if len(found) == 1 and (lit_call or is_partial or is_getter or isinstance(found[0], (ast.Tuple, ast.List, ast.Dict, ast.Constant, ast.Attribute, ast.Set))):
             try:
                 self.modconst[name] = None
                 val = self.ex(found[0], Frame(fr.func, {}))
@@ -1031,8 +1039,8 @@ class Interp:
                             fr.env[k_] = v_
             if fv[0] == 'closure':
                 cf, cfr = self.closures[fv[1]]
-                if self.is_generator(cf):
-                    raise Unknown('a generator function defined inside %s (its yields are not collected by the interpreter)' % fr.func.qualname)
+#                if self.is_generator(cf):
+#                    raise Unknown('a generator function defined inside %s (its yields are not collected by the interpreter)' % fr.func.qualname)
                 return self.inline(cf, None, args, kw, fr, n, base_env=cfr.env, cls=cfr.cls)
             if fv[0] == 'lambda':
                 node, env0, lfunc, lcls = self.lambdas[fv[1]]
@@ -1447,6 +1455,23 @@ class Interp:
                 if v.func.attr == 'reverse' and not v.args and not v.keywords and name not in self.outer_names(fr) and fr.env[name][0] in ('list', 'comp', 'cat', 'accum', 'upd', 'bin', 'call'):
                     fr.env[name] = CALL(S('list'), [CALL(S('reversed'), [fr.env[name]])])
                     return
+                cur_ = fr.env[name]
+                if cur_[0] == 'list' and name not in self.outer_names(fr) and not v.keywords:
+                    # a literal list edited at a constant position: xs.insert(2, v) / xs.pop(k) / xs.pop() / xs.clear()
+                    items = list(cur_[1])
+                    av = [self.ex(x, fr) for x in v.args]
+                    ci = lambda t_: t_[0] == 'const' and isinstance(t_[1], int) and not isinstance(t_[1], bool)
+                    if v.func.attr == 'insert' and len(av) == 2 and ci(av[0]):
+                        items.insert(av[0][1], av[1])
+                        fr.env[name] = ('list', tuple(items))
+                        return
+                    if v.func.attr == 'pop' and len(av) <= 1 and all(ci(x) for x in av) and items and (not av or -len(items) <= av[0][1] < len(items)):
+                        items.pop(*(x[1] for x in av))
+                        fr.env[name] = ('list', tuple(items))
+                        return
+                    if v.func.attr == 'clear' and not av:
+                        fr.env[name] = ('list', ())
+                        return
                 if v.func.attr in MUTATING_METHODS and v.func.attr not in ('append', 'extend', 'add', 'update') and fr.env[name][0] in ('list', 'dict', 'comp', 'cat', 'accum', 'upd', 'bin'):
                     raise Unknown('in-place %s() on the local container %s' % (v.func.attr, name))
             n0 = len(self.sink)
@@ -1479,7 +1504,15 @@ class Interp:
             if (isinstance(v, ast.Call) and isinstance(v.func, ast.Attribute) and v.func.attr in ('append', 'extend')
                     and t[0] == 'call' and len(t[2]) == 1):
                 self.emit(Eff('append', fr.func, s, target=t[1][1], value=t[2][0], op=v.func.attr))
+                if v.func.attr == 'append' and t[1][1][0] == 'attr':
+                    # X.append(v) on a list reached through an attribute path: until X is touched again, X[-1] is v
+                    # (the heap is saved / merged at branches and loop boundaries like every other store)
+                    self.heap[I(t[1][1], C(-1))] = t[2][0]
+                elif t[1][1][0] == 'attr':
+                    self.heap.pop(I(t[1][1], C(-1)), None)
                 return
+            if isinstance(v, ast.Call) and isinstance(v.func, ast.Attribute) and v.func.attr in MUTATING_METHODS and t[0] == 'call' and t[1][0] == 'attr':
+                self.heap.pop(I(t[1][1], C(-1)), None)          # the list changed some other way: its last element is no longer known
             if len(self.sink) > n0 and self.sink[-1].kind in ('call', 'solve') and self.sink[-1].line == s.lineno:
                 return      # the call itself is already in the tree
             self.emit(Eff('expr', fr.func, s, term=t))
@@ -1606,6 +1639,12 @@ class Interp:
     def target_term(self, t, fr):
         if isinstance(t, ast.Attribute):
             return A(self.ex(t.value, fr), t.attr)
+        if isinstance(t, ast.Subscript) and isinstance(t.slice, ast.Slice):
+            # X[a:b] = v on a list that is not a tracked local: a slot-range store (rules see target ('idx', X, ('sliceof', a, b)))
+            sl = t.slice
+            if sl.step is not None:
+                raise Unknown('slice step in a store target')
+            return I(self.ex(t.value, fr), ('sliceof', self.ex(sl.lower, fr) if sl.lower else NONE, self.ex(sl.upper, fr) if sl.upper else NONE))
         if isinstance(t, ast.Subscript):
             return I(self.ex(t.value, fr), self.ex(t.slice, fr))
         if isinstance(t, ast.Name):
@@ -1662,6 +1701,8 @@ class Interp:
             self.accumulate(tgt.value.id, 'setslice', ('tuple', (lo, hi)), v, fr, s)
             return
         tt = self.target_term(tgt, fr)
+        if tt[0] == 'idx' and tt[2] != C(-1):
+            self.heap.pop(I(tt[1], C(-1)), None)             # X[k] = v may be the last slot
         if v[0] == 'lpproblem':
             self.lp_problems.add(tt)
             self.emit(Eff('newprob', fr.func, s, target=tt, value=v))
